@@ -188,7 +188,60 @@ def judge_midrun(run, scn, meta, res, section='mid-run-state'):
     run.nontriv(('midrun', meta['change'], len(meta['args']), len(inside), o['exit']))
 
 
+def all_users(run, thorough):
+    """--all-users (trash-list, trash-empty): the directories $topdir/.Trash/$uid of the OTHER users of the password database are
+    governed by the same rules - under an insecure $topdir/.Trash none of them is listed or purged.  (--all-users is not in the Coq
+    model: oracle only.)"""
+    import itertools
+    scns, metas = [], []
+    for state, cmd in itertools.product(['sticky', 'nonsticky', 'link_sticky', 'link_nonsticky'], ['list', 'empty', 'empty_days']):
+        tree = [['d', '/home/u', 0o755], ['d', '/home/other', 0o755], ['d', '/vol1', 0o755]] + scen.canary()
+        if state in ('sticky', 'nonsticky'):
+            tree.append(['d', '/vol1/.Trash', 0o1777 if state == 'sticky' else 0o777])
+            real = '/vol1/.Trash'
+        else:
+            real = '/vol1/realtrash'
+            tree += [['d', real, 0o1777 if state == 'link_sticky' else 0o777], ['l', '/vol1/.Trash', real]]
+        for uid, nm in ((1000, 'mine'), (1001, 'theirs')):
+            tree += scen.entry(real + '/%d' % uid, nm, 'sh/' + nm, '2001-01-01T00:00:00', 'f')
+        step = {'cmd': 'list' if cmd == 'list' else 'empty', 'users': [['u', 1000, '/home/u'], ['other', 1001, '/home/other']],
+                'argv': ['--all-users'] + ([] if cmd == 'list' else ['-f'] if cmd == 'empty' else ['1', '-f'])}
+        if cmd == 'empty_days':
+            step['env'] = {'TRASH_DATE': '2024-01-01T00:00:00'}
+        scns.append({'tree': tree, 'mounts': ['/vol1'], 'cwd': '/', 'uid': 1000, 'env': {'HOME': '/home/u', 'TRASH_VOLUMES': '/:/vol1'}, 'steps': [step]})
+        metas.append({'all_users': True, 'state': state, 'cmd': cmd, 'real': real})
+    for scn, meta, res in zip(scns, metas, sandbox.execute_many(scns)):
+        if res.get('harness_error') or not res.get('steps'):
+            run.fail('harness', 'sandbox failure', {'error': res.get('harness_error'), 'scenario': scn})
+            continue
+        judge_all_users(run, scn, meta, res)
+
+
+def judge_all_users(run, scn, meta, res, section='all-users'):
+    run.count(section)
+    before, o = res['before'], res['steps'][0]
+    after = o['after']
+    case = {'scenario': scn, 'meta': meta, 'exit': o['exit'], 'stdout': esc(o['stdout'][-400:]), 'stderr': esc(o['stderr'][-400:])}
+    sub_b, sub_a = sandbox.subtree(before, meta['real']), sandbox.subtree(after, meta['real'])
+    if meta['state'] != 'sticky':
+        if engine.strip_mtime(sub_b) != engine.strip_mtime(sub_a):
+            run.fail('oracle', '--all-users: a command changed a $topdir/.Trash/$uid although $topdir/.Trash is %s' % meta['state'],
+                     dict(case, changed=[p for p in sorted(set(sub_b) | set(sub_a)) if sub_b.get(p) != sub_a.get(p)][:6]),
+                     key='insecure-used:all-users', section=section)
+        for nm in ('mine', 'theirs'):
+            if '/vol1/sh/' + nm in o['stdout']:
+                run.fail('oracle', "--all-users: output mentions an entry stored under an insecure $topdir/.Trash/$uid", dict(case, entry=nm),
+                         key='insecure-shown:all-users', section=section)
+    else:
+        if meta['cmd'] == 'list' and not all('/vol1/sh/' + nm in o['stdout'] for nm in ('mine', 'theirs')):
+            run.fail('oracle', '--all-users: trash-list ignores a SECURE $topdir/.Trash/$uid of one of the users', case, key='secure-ignored', section=section)
+        if meta['cmd'] != 'list' and any(p.endswith('.trashinfo') for p in sub_a):
+            run.fail('oracle', '--all-users: trash-empty ignores a SECURE $topdir/.Trash/$uid of one of the users', case, key='secure-ignored', section=section)
+    run.nontriv(('all-users', meta['state'], meta['cmd'], o['exit']))
+
+
 def run(run, thorough):
+    all_users(run, thorough)
     midrun(run, 24 if not thorough else 200)
     scns, metas = gen(run.rng, 700 if not thorough else 10000)
     out = engine.run_all(run, 'five-commands', scns)
@@ -209,7 +262,9 @@ def replay(run, payload):
     print(scn['steps'][0]['cmd'], scn['steps'][0]['argv'], 'exit', o['exit'])
     print(' stdout:', esc(o['stdout'][:500]))
     print(' stderr:', esc(o['stderr'][:500]))
-    if meta and 'change' in meta:
+    if meta and meta.get('all_users'):
+        judge_all_users(run, scn, meta, res, 'replay')
+    elif meta and 'change' in meta:
         judge_midrun(run, scn, meta, res, 'replay')
     elif meta:
         judge(run, scn, meta, res)
